@@ -313,7 +313,9 @@ func voteTemplate(rt *rapid.T, et int) []planned {
 	}
 	d0 := rapid.SampledFrom([]int{0, 1, 1}).Draw(rt, "d0")
 	var out []planned
-	out = append(out, longSleep, func(rt *rapid.T, cur sim.StatusInfo, last [2]uint64) voteStep { return upToDate(rt, cur, last, d0, first) })
+	out = append(out, longSleep, func(rt *rapid.T, cur sim.StatusInfo, last [2]uint64) voteStep {
+		return upToDate(rt, cur, last, d0, first)
+	})
 	mids := rapid.IntRange(1, 3).Draw(rt, "mids")
 	for i := 0; i < mids; i++ {
 		switch rapid.SampledFrom([]string{"sleep", "ae", "ae", "crash", "armcrash", "stop", "prevote", "is"}).Draw(rt, "mid") {
@@ -345,7 +347,9 @@ func voteTemplate(rt *rapid.T, et int) []planned {
 			})
 		}
 	}
-	out = append(out, longSleep, func(rt *rapid.T, cur sim.StatusInfo, last [2]uint64) voteStep { return upToDate(rt, cur, last, 0, second) })
+	out = append(out, longSleep, func(rt *rapid.T, cur sim.StatusInfo, last [2]uint64) voteStep {
+		return upToDate(rt, cur, last, 0, second)
+	})
 	return out
 }
 
